@@ -23,6 +23,7 @@
 #include "C04_ops_construct.inc.cpp"
 #include "C04_ops_modify.inc.cpp"
 #include "C04_ops_query.inc.cpp"
+#include "C04_ops_extra.inc.cpp"
 
 #ifndef C04_PART
     #define C04_PART 0
@@ -174,6 +175,7 @@ void vf_run(vf::Ctx& c)
         for (std::uint32_t code = 0; code < NCODES; ++code) {
             alpha.push_back(RawOp{code, 0, 2, 2});  // pos 0 / room-sized / target A, 'b'
             alpha.push_back(RawOp{code, 3, 1, 5});  // pos size / 1 / target B, hi unit
+            if (code >= c04::ALIAS_ASSIGN_PTR_N) { alpha.push_back(RawOp{code, 2, 1, 0x1212}); } // argument starts at index 1 of the string itself
         }
         if (depth == 3) {
             // 252^3 is too much for the budget: depth 3 over the mutating ops + one query of each family
